@@ -24,6 +24,7 @@ var compressVocab = []string{
 	".ResponseWriter.WriteHeader", "shouldSkipStatus", "shouldSkipContentType", "=.committed", "=.statusCode", // 32-36
 	".Flush", ".Set(Content-Type)", "=.headersSent", "=.decided", "=.compress", "=.buffer", "=.trailers", // 37-43
 	".Request.Header.Get(Accept-Encoding)", "[].excludePaths", "range.excludeExtensions", ".ResponseWriter.Header.Clone", // 44-47
+	"clear", // 48
 }
 
 // httpStatus: the net/http status constants the package compares with (value table of the standard library)
